@@ -27,15 +27,18 @@ Lemma wview_sorted s : sm_sorted (wbase s) -> sm_sorted (wview s).
 Proof.
   induction s; cbn; intros S; auto. apply sm_filter_sorted; auto.
 Qed.
+Lemma filter_true_id (m : kvmap) : sm_filter (fun _ => negb false) m = m.
+Proof. unfold sm_filter. induction m as [|[k v] t IH]; cbn; auto. f_equal; auto. Qed.
 
 Theorem stack_reads s : no_err s = true -> sm_sorted (wbase s) -> forall k,
   whas s k = ROk (kv_has (wview s) k) /\
   (forall p st, witer s p st = kv_iterate (wview s) p st) /\
   wget s k = match kv_get (wview s) k with Some v => ROk (Some v) | None => absent_res s k end.
 Proof.
-  induction s as [m| |bad e u IH|pend u IH|q u IH|u IH|u IH|l u IH|n u IH|u IH]; cbn [no_err wbase]; intros NE S k;
+  induction s as [m|m c| |bad e u IH|pend u IH|q u IH|u IH|u IH|l u IH|n u IH|rf dd u IH]; cbn [no_err wbase]; intros NE S k;
     try discriminate; try (specialize (IH NE S k); destruct IH as [IH1 [IH2 IH3]]).
   - cbn [whas witer wget wview absent_res]. repeat split; auto. destruct (kv_get m k); auto.
+  - destruct c; [discriminate|]. cbn [whas witer wget wview absent_res]. repeat split; auto. destruct (kv_get m k); auto.
   - cbn [whas witer wget wview absent_res]. repeat split; auto.
   - cbn [whas witer wget wview absent_res]. auto.
   - (* skipkeys *)
@@ -60,15 +63,23 @@ Proof.
 Qed.
 
 (* snapshots are taken below skipkeys, batched, readonly, fallible and cached layers *)
-Lemma wsnap_facts s : wview (wsnap s) = wbase s /\ wbase (wsnap s) = wbase s /\ no_err (wsnap s) = no_err s.
-Proof. induction s; cbn; try (destruct IHs as [A [B C]]); repeat split; auto. Qed.
+Lemma wsnap_facts s : no_err s = true ->
+  wview (wsnap s) = wbase s /\ wbase (wsnap s) = wbase s /\ no_err (wsnap s) = true.
+Proof.
+  induction s; cbn; intros NE; try discriminate; try (destruct (IHs NE) as [A [B C]]); repeat split; auto;
+    destruct closed; auto; discriminate.
+Qed.
 
 Theorem snapshot_reads s : no_err s = true -> sm_sorted (wbase s) -> forall k,
   whas (wsnap s) k = ROk (kv_has (wbase s) k) /\
-  (forall p st, witer (wsnap s) p st = kv_iterate (wbase s) p st).
+  (forall p st, witer (wsnap s) p st = kv_iterate (wbase s) p st) /\
+  wget (wsnap s) k = match kv_get (wbase s) k with
+                     | Some v => ROk (Some v)
+                     | None => absent_res (wsnap s) k
+                     end.
 Proof.
-  intros NE S k. destruct (wsnap_facts s) as [V [B N]].
-  destruct (stack_reads (wsnap s)) with (k := k) as [H1 [H2 _]]; try congruence.
+  intros NE S k. destruct (wsnap_facts s NE) as [V [B N]].
+  destruct (stack_reads (wsnap s)) with (k := k) as [H1 [H2 H3]]; try congruence.
   rewrite V in *. auto.
 Qed.
 
@@ -113,24 +124,31 @@ Proof. cbn. destruct (wwrite scale u (WDel k)); auto. Qed.
 
 (* ------------------------------------------------------------------ writes, buffers, Close *)
 Lemma wbw_pending s ops : wpending (wbase_write s ops) = wpending s.
-Proof. induction s; cbn; auto; congruence. Qed.
+Proof. induction s; cbn; auto; try congruence. destruct closed; auto. Qed.
 Lemma wbw_quiet s ops : quiet (wbase_write s ops) = quiet s.
-Proof. induction s; cbn; auto. Qed.
+Proof. induction s; cbn; auto; try congruence. destruct closed; auto. Qed.
 Lemma wbw_ro s ops : has_ro (wbase_write s ops) = has_ro s.
-Proof. induction s; cbn; auto. Qed.
+Proof. induction s; cbn; auto. destruct closed; auto. Qed.
 Lemma wbw_null s ops : is_null (wbase_write s ops) = is_null s.
-Proof. induction s; cbn; auto. Qed.
+Proof. induction s; cbn; auto. destruct closed; auto. Qed.
+Lemma wbw_closed s ops : base_closed (wbase_write s ops) = base_closed s.
+Proof. induction s; cbn; auto. destruct closed; auto. Qed.
 Lemma wbw_all_empty s ops : all_empty (wbase_write s ops) = all_empty s.
-Proof. induction s; cbn; auto. destruct pend; auto. Qed.
+Proof. induction s; cbn; auto. destruct closed; auto. destruct pend; auto. Qed.
 Lemma wbw_inner_empty s ops : inner_empty (wbase_write s ops) = inner_empty s.
-Proof. induction s; cbn; auto. apply wbw_all_empty. Qed.
-Lemma wbw_base s ops : is_null s = false -> wbase (wbase_write s ops) = kv_write (wbase s) ops.
-Proof. induction s; cbn; auto. discriminate. Qed.
+Proof. induction s; cbn; auto. destruct closed; auto. apply wbw_all_empty. Qed.
+Lemma wbw_base s ops : is_null s = false -> base_closed s = false ->
+  wbase (wbase_write s ops) = kv_write (wbase s) ops.
+Proof. induction s; cbn; auto; try discriminate. intros _ ->. reflexivity. Qed.
+Lemma quiet_open s : quiet s = true -> base_closed s = false.
+Proof.
+  induction s; cbn; auto; try discriminate. intros H. apply andb_true_iff in H. destruct H; auto.
+Qed.
 Lemma wbase_write_facts s ops :
   wpending (wbase_write s ops) = wpending s /\ quiet (wbase_write s ops) = quiet s /\
   has_ro (wbase_write s ops) = has_ro s /\ is_null (wbase_write s ops) = is_null s /\
   all_empty (wbase_write s ops) = all_empty s /\ inner_empty (wbase_write s ops) = inner_empty s /\
-  (is_null s = false -> wbase (wbase_write s ops) = kv_write (wbase s) ops).
+  (is_null s = false -> base_closed s = false -> wbase (wbase_write s ops) = kv_write (wbase s) ops).
 Proof.
   repeat split; [apply wbw_pending|apply wbw_quiet|apply wbw_ro|apply wbw_null|apply wbw_all_empty|
                  apply wbw_inner_empty|apply wbw_base].
@@ -146,12 +164,12 @@ Section Writes.
 
   (* one Put/Delete through a quiet stack: rejected by a readonly layer anywhere in the stack, else
      accepted; in both cases the settled map says what happened *)
-  Lemma mayflush_facts pend u : is_null u = false -> all_empty u = true ->
+  Lemma mayflush_facts pend u : is_null u = false -> base_closed u = false -> all_empty u = true ->
     exists pend1 u1, b_mayflush scale pend u = (pend1, u1) /\
       quiet u1 = quiet u /\ is_null u1 = false /\ all_empty u1 = true /\ has_ro u1 = has_ro u /\
       wpending u1 = [] /\ kv_write (wbase u1) pend1 = kv_write (wbase u) pend.
   Proof.
-    intros NN AE. pose proof (all_empty_pending u AE) as PE. unfold b_mayflush.
+    intros NN BC AE. pose proof (all_empty_pending u AE) as PE. unfold b_mayflush.
     destruct (over_threshold scale pend u).
     - exists [], (wbase_write u pend). split; auto.
       rewrite wbw_quiet, wbw_null, wbw_all_empty, wbw_ro, wbw_pending, wbw_base; auto.
@@ -170,12 +188,13 @@ Section Writes.
     (has_ro s = false -> snd (wwrite scale s o) = ROk tt /\
                          wsettled (fst (wwrite scale s o)) = kv_apply (wsettled s) o).
   Proof.
-    induction s as [m| |bad e u IH|pend u IH|q u IH|u IH|u IH|l u IH|n u IH|u IH];
+    induction s as [m|m c| |bad e u IH|pend u IH|q u IH|u IH|u IH|l u IH|n u IH|rf dd u IH];
       cbn [quiet is_null inner_empty]; intros Q NN IE; try discriminate.
     - cbn. repeat split; auto; discriminate.
     - (* batched *)
-      destruct (mayflush_facts pend u NN IE) as [pend1 [u1 [E [Q1 [N1 [A1 [R1 [P1 W1]]]]]]]].
-      cbn [wwrite]. rewrite E. rewrite R1.
+      pose proof (quiet_open u Q) as BC.
+      destruct (mayflush_facts pend u NN BC IE) as [pend1 [u1 [E [Q1 [N1 [A1 [R1 [P1 W1]]]]]]]].
+      cbn [wwrite]. rewrite BC, andb_false_r, E, R1, N1.
       assert (PE : wpending u = []) by (apply all_empty_pending; auto).
       destruct (has_ro u) eqn:RO; cbn [fst snd quiet is_null inner_empty has_ro]; rewrite ?Q1, ?N1, ?A1, ?R1.
       + repeat split; auto; try discriminate; try congruence.
@@ -188,27 +207,35 @@ Section Writes.
     - specialize (IH Q NN IE). cbn [wwrite]. destruct (wwrite scale u o) as [u' r]. cbn [fst snd] in *.
       cbn [quiet is_null inner_empty has_ro]. exact IH.
     - cbn [wwrite fst snd quiet is_null inner_empty has_ro]. repeat split; auto; try discriminate; try congruence.
-    - specialize (IH Q NN IE). cbn [wwrite]. destruct (wwrite scale u o) as [u' r]. cbn [fst snd] in *.
-      cbn [quiet is_null inner_empty has_ro]. exact IH.
+    - apply andb_true_iff in Q. destruct Q as [Q0 Q].
+      specialize (IH Q NN IE). cbn [wwrite]. destruct (wwrite scale u o) as [u' r]. cbn [fst snd] in *.
+      cbn [quiet is_null inner_empty has_ro]. rewrite Q0. exact IH.
   Qed.
 
   Lemma wclose_c_quiet s : quiet s = true ->
     snd (fst (wclose_c s)) = ROk tt /\ snd (wclose_c s) = wpending s /\
-    wbase (fst (fst (wclose_c s))) = wbase s /\ is_null (fst (fst (wclose_c s))) = is_null s.
+    wbase (fst (fst (wclose_c s))) = wbase s /\ is_null (fst (fst (wclose_c s))) = is_null s /\
+    base_closed (fst (fst (wclose_c s))) = false.
   Proof.
-    induction s; cbn [quiet]; intros Q; try discriminate; cbn [wclose_c]; auto;
-      specialize (IHs Q); destruct (wclose_c s) as [[u' r] ws]; cbn [fst snd wbase is_null wpending] in *;
-      destruct IHs as [A [B [C D]]]; repeat split; auto. congruence.
+    induction s as [m|m c| |bad e u IH|pend u IH|q u IH|u IH|u IH|l u IH|n u IH|rf dd u IH];
+      cbn [quiet]; intros Q; try discriminate; cbn [wclose_c]; auto.
+    - pose proof (quiet_open u Q) as BC. rewrite BC.
+      specialize (IH Q). destruct (wclose_c u) as [[u' r] ws]. cbn [fst snd wbase is_null wpending base_closed] in *.
+      destruct IH as [A [B [C [D E]]]]. repeat split; auto. congruence.
+    - specialize (IH Q). destruct (wclose_c u) as [[u' r] ws]. cbn [fst snd wbase is_null wpending base_closed] in *. exact IH.
+    - specialize (IH Q). destruct (wclose_c u) as [[u' r] ws]. cbn [fst snd wbase is_null wpending base_closed] in *. exact IH.
+    - specialize (IH Q). destruct (wclose_c u) as [[u' r] ws]. cbn [fst snd wbase is_null wpending base_closed] in *. exact IH.
+    - apply andb_true_iff in Q. destruct Q as [Q0 Q]. apply N.eqb_eq in Q0. subst rf. cbn.
+      specialize (IH Q). destruct (wclose_c u) as [[u' r] ws]. cbn [fst snd wbase is_null wpending base_closed] in *. exact IH.
   Qed.
 
   (* Close writes every buffer: afterwards the base IS the settled map *)
   Theorem close_settles s : quiet s = true -> is_null s = false ->
     snd (wclose s) = ROk tt /\ wbase (fst (wclose s)) = wsettled s.
   Proof.
-    intros Q NN. unfold wclose. destruct (wclose_c_quiet s Q) as [A [B [C D]]].
+    intros Q NN. unfold wclose. destruct (wclose_c_quiet s Q) as [A [B [C [D E]]]].
     destruct (wclose_c s) as [[s' r] ws]. cbn [fst snd] in *. split; auto.
-    destruct (wbase_write_facts s' ws) as [_ [_ [_ [_ [_ [_ G]]]]]].
-    rewrite G; [|congruence]. unfold wsettled. congruence.
+    rewrite wbw_base; [|congruence|auto]. unfold wsettled. congruence.
   Qed.
 
   Definition wwrites (s : wst) (ops : list wop) : wst := fold_left (fun st o => fst (wwrite scale st o)) ops s.
@@ -256,26 +283,28 @@ Proof. vm_compute. repeat split. Qed.
    after Flush the buffered writes are in it *)
 Lemma wview_hidden s : wview s = sm_filter (fun k => negb (hidden s k)) (wbase s).
 Proof.
-  induction s; cbn [wview wbase hidden]; auto.
-  - unfold sm_filter. induction m as [|[k v] t IH]; cbn; auto. f_equal; auto.
-  - rewrite IHs, sm_filter_filter. apply sm_filter_ext. intros k. rewrite negb_orb. apply andb_comm.
+  induction s as [m|m c| |bad e u IH|pend u IH|q u IH|u IH|u IH|l u IH|n u IH|rf dd u IH];
+    cbn [wview wbase hidden]; auto.
+  - symmetry. apply filter_true_id.
+  - symmetry. apply filter_true_id.
+  - rewrite IH, sm_filter_filter. apply sm_filter_ext. intros k. rewrite negb_orb. apply andb_comm.
 Qed.
 
 Lemma wbw_hidden s ops k : hidden (wbase_write s ops) k = hidden s k.
-Proof. induction s; cbn; auto. rewrite IHs; auto. Qed.
+Proof. induction s; cbn; auto. destruct closed; auto. rewrite IHs; auto. Qed.
 
 Theorem flush_shows_writes pend u :
-  is_null u = false -> all_empty u = true ->
+  is_null u = false -> base_closed u = false -> all_empty u = true ->
   wbase (l_flush (WBatched pend u)) = wsettled (WBatched pend u) /\
   wpending (l_flush (WBatched pend u)) = [] /\
   wview (l_flush (WBatched pend u)) =
     sm_filter (fun k => negb (hidden u k)) (wsettled (WBatched pend u)).
 Proof.
-  intros NN AE. pose proof (all_empty_pending u AE) as PE.
+  intros NN BC AE. pose proof (all_empty_pending u AE) as PE.
   assert (B : wbase (l_flush (WBatched pend u)) = wsettled (WBatched pend u)).
-  { cbn [l_flush wbase]. unfold wsettled. cbn [wbase wpending]. rewrite PE, app_nil_r. apply wbw_base; auto. }
+  { cbn [l_flush]. rewrite BC. cbn [wbase]. unfold wsettled. cbn [wbase wpending]. rewrite PE, app_nil_r. apply wbw_base; auto. }
   split; [exact B|]. split.
-  - cbn [l_flush wpending]. rewrite wbw_pending. exact PE.
-  - rewrite wview_hidden, B. apply sm_filter_ext. intros k. cbn [l_flush hidden].
+  - cbn [l_flush]. rewrite BC. cbn [wpending]. rewrite wbw_pending. exact PE.
+  - rewrite wview_hidden, B. apply sm_filter_ext. intros k. cbn [l_flush]. rewrite BC. cbn [hidden].
     rewrite wbw_hidden. reflexivity.
 Qed.
